@@ -33,7 +33,7 @@ XDTYPES = {'float64': torch.float64, 'float32': torch.float32, 'int64': torch.in
 
 SCOPE = {
     'quick': ('recording models: every n in 1..40 x every batch size b in 1..n+3 x 0-3 extra arguments (940 x 4 combinations), '
-              '2 of the 7 output kinds {tensor, tuple of 1/2/3, list of 1/2/3} per combination (rotating), X dtype rotating over '
+              '3 of the 7 output kinds {tensor, tuple of 1/2/3, list of 1/2/3} per combination (rotating), X dtype rotating over '
               'float64/float32/int64/int8, args passed as tuple/list (None or empty for 0 args); dropout / batch-norm / both models handed over in train mode: every n in 1..40 x every b in 1..n+3 '
               'x {0,1} extra arguments (one model kind per combination, rotating); rejection: every n in 1..40 x 1-3 args x every position of the bad entry x leading '
               'dimensions {n-1, n+1, 1, 2n, 0, n+b} x 2 batch sizes; batch_size omitted (default 32) for every n'),
@@ -330,17 +330,17 @@ def run(rep):
             bb = 0 if b is None else b
             for nargs in range(4):
                 r = n + bb + nargs
-                outs = OUT_KINDS if thorough else (OUT_KINDS[r % 7], OUT_KINDS[(r + 3) % 7])
+                outs = OUT_KINDS if thorough else (OUT_KINDS[r % 7], OUT_KINDS[(r + 3) % 7], OUT_KINDS[(r + 5) % 7])
                 for oi, out in enumerate(outs):
                     for t in range(2 if thorough else 1):
                         case = {'kind': 'rec', 'n': n, 'b': b, 'nargs': nargs, 'out': out, 'seed': seed0 + t,
                                 'xdtype': xd[(r + oi + t) % 4],
                                 'args_as': ('none' if (r + oi) % 2 else 'list') if nargs == 0 else ('tuple' if (r + oi) % 2 else 'list')}
-                        _do(rep, case, 'recording-models', count, sample=case if (n, b, nargs) == (5, 2, 2) else None)
+                        _do(rep, case, 'recording-models', count, sample=case)
             for nargs in (0, 1):
                 for kind in (kinds if thorough else (kinds[(n + bb + nargs) % 3],)):
                     case = {'kind': 'mode', 'model': kind, 'n': n, 'b': b, 'nargs': nargs, 'seed': seed0}
-                    _do(rep, case, 'train-vs-eval-models', count, sample=case if (n, b, nargs) == (5, 2, 1) else None)
+                    _do(rep, case, 'train-vs-eval-models', count, sample=case)
         # rejection
         for nargs in (1, 2, 3):
             for k in range(nargs):
@@ -348,7 +348,7 @@ def run(rep):
                     for mm in sorted({n - 1, n + 1, 1, 2 * n, 0, n + b} - {n}):
                         case = {'kind': 'reject', 'n': n, 'b': b, 'nargs': nargs, 'k': k, 'm': mm, 'seed': seed0,
                                 'out': OUT_KINDS[(n + k) % 7], 'args_as': 'tuple' if (n + k + mm) % 2 else 'list'}
-                        _do(rep, case, 'rejection', count, sample=case if (n, nargs, k, mm) == (5, 2, 1, 4) else None)
+                        _do(rep, case, 'rejection', count, sample=case)
     if done:
         rep.mark_exhaustive('every n in 1..40 x every batch size 1..n+3 (+ default) x 0-3 extra arguments' +
                             (' x every output kind' if thorough else ' (output kinds / dtypes rotating)'))
